@@ -36,6 +36,7 @@ def run(ck):
     ck.rule("C13.R11", "every span in scope is written with its fields: the only reason not to write a span's stored fields is that there are none", floor=3)
     ck.rule("C13.R12", "the set of configured span lifecycle points is what the user's expression denotes: FmtSpan's operators compute the operator they are named after", floor=6)
     ck.rule("C13.R13", "a span's formatted fields accumulate: handing out the writer over them and recording further values never discards what is already there", floor=3)
+    ck.rule("C13.R14", "a writer expression denotes what its spelling says: each MakeWriterExt adaptor builds its own combinator from (self, argument) in place, the provided make_writer_for is make_writer, and the sum / guard writers forward every io::Write method to the writer they hold", floor=20)
     ck.rule("C13.R10", "every field a formatter's visitor is handed ends up in the record: no record_* path drops a field (except after an earlier write error)", floor=4)
     ck.rule("C13.R9", "formatter options have the polarity of their name: nothing is written because a display_* flag is off", floor=4)
     ck.rule("C13.R8", "a formatting panic the caller caught does not silence the thread: get_default's re-entrancy flag is given back on unwinding (as C02.R6)", floor=3)
@@ -56,6 +57,7 @@ def run(ck):
     r12(ck, F)
     r12b(ck, F)
     r13(ck, F)
+    r14(ck, F)
     from rules import C02
     C02.r6(ck, F, rid="C13.R8")
 
@@ -527,6 +529,75 @@ def r13(ck, F):
             ck.bad("C13.R13", key, where(b.raw["sp"]), "the stored text is shortened or replaced (%s)" % (shrink or "assignment to .fields"), fn=b.path)
         else:
             ck.ok("C13.R13", key, fn=b.path)
+
+
+def r14(ck, F):
+    """R4 decides what each combinator *does*; this decides that `a.with_max_level(l).and(b).or_else(c)` builds those
+    combinators: adaptor -> constructor -> fields, argument order kept (self first); plus the plumbing writers."""
+    ADAPT = {"with_max_level": "WithMaxLevel::<M>", "with_min_level": "WithMinLevel::<M>", "with_filter": "WithFilter::<M, F>", "and": "Tee::<A, B>", "or_else": "OrElse::<A, B>"}
+    for m, ty in ADAPT.items():
+        b = F.body(W + "MakeWriterExt::" + m)
+        key = "MakeWriterExt::%s builds %s from (self, argument)" % (m, ty.split("::")[0])
+        if not ck.anchor("C13.R14", "MakeWriterExt::" + m, b):
+            continue
+        rets = [p.ret for p in PathEval(b).run() if p.end == "return"]
+        ok = len(rets) == 1 and rets[0][0] == "call" and rets[0][1] == W + ty + "::new" and [show(a) for a in rets[0][2]] == ["arg1", "arg2"]
+        if ok:
+            ck.ok("C13.R14", key, fn=b.path)
+        else:
+            ck.bad("C13.R14", key, where(b.raw["sp"]), "returns %s" % [show(r)[:80] for r in rets], fn=b.path)
+        nb = F.body(W + ty + "::new")
+        key = "%s::new stores its arguments in declaration order" % ty.split("::")[0]
+        if not ck.anchor("C13.R14", ty + "::new", nb):
+            continue
+        rets = [p.ret for p in PathEval(nb).run() if p.end == "return"]
+        ok = len(rets) == 1 and rets[0][0] == "agg" and [show(a) for a in rets[0][3]] == ["arg1", "arg2"]
+        if ok:
+            ck.ok("C13.R14", key, fn=nb.path)
+        else:
+            ck.bad("C13.R14", key, where(nb.raw["sp"]), "builds %s" % [show(r)[:80] for r in rets], fn=nb.path)
+    b = F.body(W + "MakeWriter::make_writer_for")
+    if ck.anchor("C13.R14", "MakeWriter::make_writer_for (provided)", b):
+        rets = [show(p.ret) for p in PathEval(b).run() if p.end == "return"]
+        key = "the provided make_writer_for is make_writer"
+        if rets == ["make_writer(arg1)"]:
+            ck.ok("C13.R14", key, fn=b.path)
+        else:
+            ck.bad("C13.R14", key, where(b.raw["sp"]), "returns %s" % rets, fn=b.path)
+    for i in F.impls:
+        if i.get("trait") != IOW:
+            continue
+        st = i["self_ty"]
+        if not (st.startswith(W + "EitherWriter<") or st.startswith(W + "MutexGuardWriter<")):
+            continue
+        short = st[len(W):].split("<")[0]
+        for m, pth in sorted(i["methods"].items()):
+            b = F.body(pth)
+            if b is None:
+                continue
+            key = "%s::%s forwards to the writer it holds" % (short, m)
+            problems = []
+            for pth_ in PathEval(b).run():
+                if pth_.end != "return":
+                    continue
+                r = pth_.ret
+                if not (r[0] == "call" and r[1].endswith("::" + m)):
+                    problems.append("returns %s" % show(r)[:60])
+                    continue
+                recv = show(r[2][0])
+                if short == "EitherWriter":
+                    d = [c[1] for c in pth_.conds if show(c[0]) == "discr(arg1)"]
+                    want = {0: "(arg1 as A).0", 1: "(arg1 as B).0"}.get(d[0] if d else None)
+                    if recv != want:
+                        problems.append("variant %s forwards to %s" % (d, recv))
+                elif "arg1.0" not in recv:
+                    problems.append("forwards to %s" % recv)
+                if [show(a) for a in r[2][1:]] != ["arg%d" % k for k in range(2, b.argc + 1)]:
+                    problems.append("arguments %s" % [show(a) for a in r[2][1:]])
+            if problems:
+                ck.bad("C13.R14", key, where(b.raw["sp"]), "; ".join(sorted(set(problems))), fn=b.path)
+            else:
+                ck.ok("C13.R14", key, fn=b.path)
 
 
 def r11(ck, F):
